@@ -63,6 +63,7 @@ type SpecDB struct {
 	ifaces  map[string]*FuncContract // key: pkgpath.Iface.Method
 	specFns map[string]*SpecFunc
 	axioms  []*Clause
+	lemmas  []*Clause
 	stable  map[string]bool // "pkgpath.Type.field" or "pkgpath.Type.*"
 	nonnil  map[string]bool
 	ghosts  map[string]Sort
@@ -124,7 +125,7 @@ func (db *SpecDB) isNonNil(st types.Type, field string) bool {
 	return db.nonnil[p+"."+n+"."+field]
 }
 
-var clauseHead = regexp.MustCompile(`^(requires|ensures|assert|invariant|axiom|assume)(\[([^\]]*)\])?\s+(.*)$`)
+var clauseHead = regexp.MustCompile(`^(requires|ensures|assert|invariant|axiom|assume|lemma)(\[([^\]]*)\])?\s+(.*)$`)
 
 // loadContractFile parses one contract file. pkgPath is "" for stdlib.spec style files (full names).
 func (db *SpecDB) loadContractFile(path, pkgPath string) error {
@@ -330,7 +331,15 @@ func (db *SpecDB) loadContractFile(path, pkgPath string) error {
 				cur.Trusted = true
 			}
 		case "lemma":
-			if cur != nil {
+			// lemma[label] closed formula (global), or flag on a harness function
+			if m := clauseHead.FindStringSubmatch(trim); m != nil && m[4] != "" {
+				c := newClause("lemma", m[3], m[4])
+				c.Call = pkgPath
+				db.lemmas = append(db.lemmas, c)
+				if m2 := regexp.MustCompile(`\buses\(([^)]*)\)`).FindStringSubmatch(m[3]); m2 != nil {
+					_ = m2
+				}
+			} else if cur != nil {
 				cur.Lemma = true
 			}
 		case "safety":
